@@ -90,18 +90,20 @@ def Db.add (db : Db) (s : Section) (r : DbRec) : Except LoadErr Db :=
   | some l => .ok (db.set s (some (l ++ [r])))
   | none => .error .database
 
-/-- `iter_values(key, direction)` / `_get`: the MTU list ignores the direction argument, the
-    directional ones need one; anything missing is a `DatabaseError` -/
+/-- which list `_get(key, direction)` addresses: the MTU list ignores the direction argument, the
+    directional ones need one -/
+def secOf (k : RecKind) (d : Option Dir) : Option Section :=
+  match k, d with
+  | .mtu, _ => some .mtu
+  | .tcp, some .req => some .tcpReq
+  | .tcp, some .resp => some .tcpResp
+  | .http, some .req => some .httpReq
+  | .http, some .resp => some .httpResp
+  | _, none => none
+
+/-- `iter_values(key, direction)` / `_get`: anything missing is a `DatabaseError` -/
 def Db.iter (db : Db) (k : RecKind) (d : Option Dir) : Except LoadErr (List DbRec) :=
-  let sec : Option Section :=
-    match k, d with
-    | .mtu, _ => some .mtu
-    | .tcp, some .req => some .tcpReq
-    | .tcp, some .resp => some .tcpResp
-    | .http, some .req => some .httpReq
-    | .http, some .resp => some .httpResp
-    | _, none => none
-  match sec with
+  match secOf k d with
   | none => .error .database
   | some s => match db s with
     | some l => .ok l
@@ -110,15 +112,19 @@ def Db.iter (db : Db) (k : RecKind) (d : Option Dir) : Except LoadErr (List DbRe
 /-- `len(database)` -/
 def Db.len (db : Db) : Nat := (Section.all.map fun s => ((db s).getD []).length).sum
 
+/-- `raw_label == record.label.dump()` -/
+def DbRec.labelIs (r : DbRec) (raw : List Char) : Bool :=
+  match r.label with
+  | some lb => raw == lb.dump
+  | none => false
+
 /-- `get_random(raw_label, key, direction)`: the candidate list `random.choice` draws from;
     empty = `DatabaseError` -/
 def Db.candidates (db : Db) (raw : List Char) (k : RecKind) (d : Option Dir) : Except LoadErr (List DbRec) :=
   match db.iter k d with
   | .error e => .error e
   | .ok l =>
-    let c := l.filter fun r => match r.label with
-      | some lb => raw == lb.dump
-      | none => false
+    let c := l.filter (·.labelIs raw)
     if c.isEmpty then .error .database else .ok c
 
 /-! ### the parser -/
